@@ -131,7 +131,8 @@ def tokenize(text):
 
 
 # --------------------------------------------------------------------------------------------------- parser
-TYPEWORDS = {"const", "char", "int", "int64", "uint", "uint32", "uint64", "bool", "String", "usize", "uchar", "unsigned", "long"}
+TYPEWORDS = {"const", "char", "int", "int64", "uint", "uint32", "uint64", "bool", "String", "usize", "uchar", "unsigned", "long",
+             "List", "HashMap"}
 BINPREC = [("||",), ("&&",), ("|",), ("^",), ("&",), ("==", "!="), ("<", ">", "<=", ">="), ("<<", ">>"), ("+", "-"), ("*", "/", "%")]
 
 
@@ -166,6 +167,19 @@ class Parser:
             words.append(self.eat()[1])
         if not words:
             raise Refuse(f"{self.what}: type expected at {self.peek()!r}")
+        if self.isop("<"):                       # template arguments: kept as text
+            depth = 0
+            while True:
+                t = self.eat()
+                if t == ("op", "<"):
+                    depth += 1
+                elif t == ("op", ">"):
+                    depth -= 1
+                    if depth == 0:
+                        break
+                elif t[0] == "eof":
+                    raise Refuse(f"{self.what}: unbalanced template arguments")
+            words.append("<>")
         return " ".join(w for w in words if w != "const")
 
     # ---- expressions
@@ -274,9 +288,9 @@ class Parser:
         items = []
         while True:
             ptr = False
-            while self.isop("*"):
+            while self.isop("*") or self.isop("&"):
+                ptr = ptr or self.isop("*")
                 self.eat()
-                ptr = True
             if not self.isid():
                 raise Refuse(f"{self.what}: declarator expected")
             name = self.eat()[1]
@@ -450,6 +464,10 @@ def pr(node, ind):
         _, fn, cset, ptr, var, ksome, knone = node
         return ([pad + f"({fn} {cset} {ptr}"] + paren(pr(knone, ind + 1)) + [pad + f"  (fun {var} =>"] +
                 close(close(pr(ksome, ind + 2))))
+    if k == "next":          # readToken(): (ok: the new parser state) / (failure: its line and cursor)
+        _, fn, call, vars_ok, kok, kfail = node
+        return ([pad + f"({fn} ({call})"] + [pad + f"  (fun {vars_ok} =>"] + close(pr(kok, ind + 2)) +
+                [pad + "  (fun el ep =>"] + close(close(pr(kfail, ind + 2))))
     if k == "lit":
         _, fn, lit, ptr, kmatch, kmis = node
         return [pad + f"({fn} {lit} {ptr}"] + paren(pr(kmatch, ind + 1)) + close(paren(pr(kmis, ind + 1)))
@@ -556,6 +574,9 @@ class Snippet:
         self.assumed = set()
         self.lit = "Cxx.litR"
         self.renamed = {}
+        self.rec_name = None     # C++ name of the function being translated when it calls itself (directly or through helpers)
+        self.rec_lean = None
+        self.recursive_entry = False
         self.always = set()      # variables passed to every loop head even when the loop does not mention them
         self.functions = {}      # other member functions of Json::Private that may be inlined: name -> (params, body)
         self.inlining = set()
@@ -577,7 +598,7 @@ class Snippet:
         k = v[0]
         if k in ("ptr", "bptr"):
             return self.ptr_lean(v)
-        if k in ("bytes", "nat", "bool", "out"):
+        if k in ("bytes", "nat", "bool", "out", "vlist", "vmap", "st", "jval"):
             return v[1]
         if k == "int":
             return v[1]
@@ -590,7 +611,15 @@ class Snippet:
         raise Refuse(f"{self.prefix}: a value of kind {k} cannot be passed to a loop head")
 
     # ---- environment: dict name -> (value, decl order); copied on write
+    STATE_VIEWS = {"token.token": ("byte", "{}.tok"), "token.value": ("jval", "{}.val"), "pos.line": ("nat", "{}.line")}
+
     def lookup(self, env, name):
+        if "$st" in env and (name in self.STATE_VIEWS or name == "pos.pos"):
+            st = env["$st"][0][1]
+            if name == "pos.pos":
+                return (("ptr", f"{st}.r", 0), -2, 0)
+            kind, fmt = self.STATE_VIEWS[name]
+            return ((kind, fmt.format(st)), -2, 0)
         if name not in env:
             raise Refuse(f"{self.prefix}: unknown or out-of-scope variable `{name}`")
         return env[name]
@@ -670,6 +699,8 @@ class Snippet:
         return None
 
     def setvar(self, env, name, v, ctx):
+        if "$st" in env and (name in self.STATE_VIEWS or name == "pos.pos"):
+            raise Refuse(f"{self.prefix}: the parser assigns `{name}` directly")
         if name not in env:
             if name not in ("token.value", "token.token", "errorLine", "errorColumn", "errorString"):
                 raise Refuse(f"{self.prefix}: assignment to the unknown variable `{name}`")
@@ -789,7 +820,9 @@ class Snippet:
                     v2 = v
                     old = ("uninit",) if nm in ("token.value", "token.token", "errorLine", "errorColumn", "errorString") \
                         else self.lookup(env2, nm)[0]
-                    if old[0] == "uninit" or old[0] == v[0] or {old[0], v[0]} <= {"ptr", "null"} or \
+                    if old[0] == "jout" and v[0] == "jval":
+                        pass
+                    elif old[0] == "uninit" or old[0] == v[0] or {old[0], v[0]} <= {"ptr", "null"} or \
                             (old[0] == "bool" and v[0] == "cbool") or (old[0] == "cbool" and v[0] in ("bool", "cbool")):
                         pass
                     else:
@@ -855,6 +888,16 @@ class Snippet:
                 env2 = dict(env)
                 env2["$err"] = (("err", self.lean_of(line), self.lean_of(p)), -1, 0)
                 return k(("void",), env2)
+            if name == "readToken" and not args and "$st" in env:
+                st = env["$st"][0][1]
+                new = self.fresh("st")
+                env_ok = dict(env)
+                env_ok["$st"] = (("st", new), env["$st"][1], env["$st"][2])
+                env_f = dict(env)
+                env_f["$err"] = (("err", "el", "ep"), -1, 0)
+                return ("next", "Cxx.nextR", f"St.next {st}", new, k(("cbool", True), env_ok), k(("cbool", False), env_f))
+            if name == self.rec_name and len(args) == 1 and "$st" in env:
+                return self.recurse(args[0], env, ctx, k)
             if name in self.functions:
                 return self.inline(name, args, env, ctx, k)
             raise Refuse(f"{self.prefix}: call of `{name}`")
@@ -880,6 +923,13 @@ class Snippet:
                 self.assumed.add("`k.scanf(\"%x\", &w)` on the digits collected by the preceding loop succeeds (returns 1) with "
                                  "w = their hexadecimal value (`scanHex`); its failure branch is not translated")
                 return k(("const", 1), self.setvar(env, tgt, ("nat", f"(scanHex {ov[1]})"), ctx))
+            if meth == "toString" and not args and ov[0] == "jval":
+                return k(("bytes", f"(Val.strOf {ov[1]})"), env)
+            if meth in ("toList", "toMap") and not args and ov[0] == "jout":
+                # the out-parameter becomes a list / map: ASSUMED to be a fresh Variant (empty container)
+                self.assumed.add("the `Variant& result` handed to parseValue / parseArray / parseObject is a fresh (null) Variant: "
+                                 "`result.toList()` / `result.toMap()` start from the empty container")
+                return k(("vlist" if meth == "toList" else "vmap", "[]", obj), env)
             if meth == "toInt64" and not args and ov[0] == "bytes":
                 return k(("int", f"(atoll {ov[1]})", "int64"), env)
             if meth == "toDouble" and not args and ov[0] == "bytes":
@@ -894,6 +944,36 @@ class Snippet:
                 return k(("opaque",), env)
             raise Refuse(f"{self.prefix}: call of `{obj}.{meth}`")
         raise Refuse(f"{self.prefix}: call form")
+
+    def recurse(self, arg, env, ctx, k):
+        """`parseValue(<place>)`: the recursive call; its value goes where `<place>` says: `list.append(Variant())` = behind the
+        items of the list, `object.append(key, Variant())` = HashMap::append of the model (`mapAppend`)"""
+        place = None
+        if arg[0] == "call" and arg[1][0] == "member" and arg[1][2] == "append":
+            tgt = self.var_name(arg[1][1])
+            tv = self.lookup(env, tgt)[0] if tgt else ("?",)
+            fresh_variant = ("call", ("id", "Variant"), [])
+            if tv[0] == "vlist" and arg[2] == [fresh_variant]:
+                place = ("list", tgt, None)
+            elif tv[0] == "vmap" and len(arg[2]) == 2 and arg[2][1] == fresh_variant:
+                kn = self.var_name(arg[2][0])
+                kv = self.lookup(env, kn)[0] if kn else ("?",)
+                if kv[0] == "bytes":
+                    place = ("map", tgt, kv[1])
+        if place is None:
+            raise Refuse(f"{self.prefix}: recursive call whose argument is not `list.append(Variant())` / `map.append(key, Variant())`")
+        st = env["$st"][0][1]
+        v, new = self.fresh("v"), self.fresh("st")
+        env_ok = dict(env)
+        env_ok["$st"] = (("st", new), env["$st"][1], env["$st"][2])
+        old = self.lookup(env, place[1])[0]
+        if place[0] == "list":
+            env_ok = self.setvar(env_ok, place[1], ("vlist", f"({old[1]} ++ [{v}])", old[2]), ctx)
+        else:
+            env_ok = self.setvar(env_ok, place[1], ("vmap", f"(mapAppend {old[1]} {place[2]} {v})", old[2]), ctx)
+        env_f = dict(env)
+        env_f["$err"] = (("err", "el", "ep"), -1, 0)
+        return ("next", "Cxx.callR", f"{self.rec_lean} f {st}", f"{v} {new}", k(("cbool", True), env_ok), k(("cbool", False), env_f))
 
     def inline(self, name, args, env, ctx, k):
         """a call of another member function of Json::Private: its body is executed in place.  Reference parameters are
@@ -921,8 +1001,14 @@ class Snippet:
         try:
             def leave(v, env2):                  # the caller goes on: the callee is no longer active
                 self.inlining.discard(name)
+                out_env = self.scoped(env, env2)
+                for n2, x in env2.items():          # a container built through a reference to an out-parameter: stored back
+                    if n2 not in env and x[0][0] in ("vlist", "vmap") and x[0][2] in out_env \
+                            and out_env[x[0][2]][0][0] == "jout":
+                        o = out_env[x[0][2]]
+                        out_env[x[0][2]] = (("jval", f"(Val.{'list' if x[0][0] == 'vlist' else 'map'} {x[0][1]})"), o[1], o[2])
                 try:
-                    return k(v, self.scoped(env, env2))
+                    return k(v, out_env)
                 finally:
                     self.inlining.add(name)
             inner = Ctx(labels={}, depth=ctx.depth, ret=leave)
@@ -1032,6 +1118,8 @@ class Snippet:
                         return one(i + 1, self.declare(env4, name, ("outstart", src_name), ctx))
                     if ty == "char*" and v[0] == "outstart":         # char* dest = destBuffer;
                         return one(i + 1, self.declare(env3, name, ("out", "[]", v[1]), ctx))
+                    if v[0] in ("vlist", "vmap") and (ty.startswith("List") or ty.startswith("HashMap")):
+                        return one(i + 1, self.declare(env3, name, v, ctx))
                     if ty == "char*" and v[0] in ("ptr", "null", "bptr"):
                         return one(i + 1, self.declare(env3, name, v, ctx))
                     if ty == "bool" and v[0] in ("cbool", "bool", "prop"):
@@ -1160,13 +1248,14 @@ class Snippet:
                     used |= {"pos.pos", "pos.line"}
                 visible = sorted(((order, n) for n, (v, order, depth) in env1.items()
                                   if ((n in used and n != flag and n != "token.value" and
-                                       v[0] in ("ptr", "bptr", "bytes", "nat", "bool", "cbool", "out", "int", "uninit", "const"))
-                                      or (n == "token.token" and v[0] in ("byte", "const"))) and not n.startswith("$")))
+                                       v[0] in ("ptr", "bptr", "bytes", "nat", "bool", "cbool", "out", "int", "uninit", "const",
+                                                "vlist", "vmap", "st"))
+                                      or (n == "token.token" and v[0] in ("byte", "const"))) and (not n.startswith("$") or n == "$st")))
                 last = [n for o, n in visible if n == self.last]
                 names = [n for o, n in visible if n != self.last] + last
                 name = f"{self.prefix}L{len(self.loops)}"
                 params = []
-                env_in = {n: v for n, v in env1.items() if v[0][0] in ("outbuf", "outstart", "bstart", "opaque") or n == "token.value"
+                env_in = {n: v for n, v in env1.items() if v[0][0] in ("outbuf", "outstart", "bstart", "opaque", "jout") or n == "token.value"
                           or (n == "token.token" and v[0][0] == "uninit")}
                 for n in names:
                     v, order, depth = env1[n]
@@ -1179,6 +1268,12 @@ class Snippet:
                         sym, ty = ("ptr", lean, 0), "List Byte"
                     elif kind == "bptr":
                         sym, ty = ("bptr", lean, 0), "List Byte"
+                    elif kind == "vlist":
+                        sym, ty = ("vlist", lean, v[2]), "List Val"
+                    elif kind == "vmap":
+                        sym, ty = ("vmap", lean, v[2]), "List (List Byte × Val)"
+                    elif kind == "st":
+                        sym, ty = ("st", lean), "St"
                     elif kind in ("bytes",):
                         sym, ty = ("bytes", lean), "List Byte"
                     elif kind == "out":
@@ -1239,6 +1334,10 @@ class Snippet:
                 return lean
         if kind == "out":
             return "out"
+        if kind in ("vlist", "vmap"):
+            return "acc"
+        if kind == "st":
+            return "st"
         return f"v{idx}"
 
     # ---- driver ------------------------------------------------------------------------------------------
@@ -1246,10 +1345,11 @@ class Snippet:
         env = {}
         for i, (n, kind, lean) in enumerate(self.externals):
             v = {"ptr": ("ptr", lean, 0), "nat": ("nat", lean), "bytes": ("bytes", lean), "bptr": ("bptr", lean, 0),
-                 "bstart": ("bstart",), "opaque": ("opaque",)}[kind]
+                 "bstart": ("bstart",), "opaque": ("opaque",), "st": ("st", lean), "jout": ("jout",)}[kind]
             env[n] = (v, i, 0)
-        env["token.value"] = (("uninit", "Variant"), 9999, 0)
-        env["token.token"] = (("uninit", "char"), 9998, 0)
+        if not any(kind == "st" for _, kind, _ in self.externals):
+            env["token.value"] = (("uninit", "Variant"), 9999, 0)
+            env["token.token"] = (("uninit", "char"), 9998, 0)
 
         def end(env2):
             if self.fallthrough is None:
@@ -1258,6 +1358,9 @@ class Snippet:
         top = self.exec_list(stmts, 0, env, Ctx(), end)
         out = []
         loopdefs = [d for d in self.defs if d is not None]
+        if self.recursive_entry:
+            loopdefs = [(entry_name, [("$st", "st", "St")], top)] + loopdefs
+            out.append(f"/- {doc} -/")
         if loopdefs:
             if len(loopdefs) > 1:
                 out.append("mutual")
@@ -1270,8 +1373,10 @@ class Snippet:
             if len(loopdefs) > 1:
                 out.append("end")
             out.append("")
+        if self.recursive_entry:
+            return "\n".join(out)
         ext = " ".join(f"({lean} : {'List Byte' if kind in ('ptr', 'bytes', 'bptr') else 'Nat'})"
-                       for _, kind, lean in self.externals if kind not in ("bstart", "opaque"))
+                       for _, kind, lean in self.externals if kind not in ("bstart", "opaque", "jout", "st"))
         out.append(f"/-- {doc} -/")
         out.append(f"def {entry_name} (f : Nat) {ext} : {self.rtype} :=")
         out += pr(top, 1)
@@ -1452,6 +1557,48 @@ def translate(cpp_text):
     sn.always = {pn + ".line", pn + ".pos"}
     parts.append(sn.run(body, "syntaxError", "`Json::Private::syntaxError(pos, error)`: `back` = the bytes of the text in front of `pos.pos`, "
                         "nearest first (`start` = where that list ends); result = (errorLine, errorColumn)"))
+    assumed |= sn.assumed
+
+    # 7. parseValue (parseArray / parseObject executed in place; recursion = a call of the generated function with the fuel)
+    pm = re.search(r"bool\s+Json::Private::parseValue\s*\(\s*Variant\s*&\s*(\w+)\s*\)", src)
+    if not pm:
+        raise Refuse("Json::Private::parseValue(Variant&) not found")
+    pv = function_body(src, r"bool\s+Json::Private::parseValue\s*\(\s*Variant\s*&\s*\w+\s*\)", "Json::Private::parseValue")
+    pfunctions = dict(functions)
+    for fname in ("parseArray", "parseObject"):
+        fm = re.search(r"bool\s+Json::Private::" + fname + r"\s*\(\s*Variant\s*&\s*(\w+)\s*\)\s*\{", src)
+        if fm:
+            end = balanced(src, fm.end() - 1)
+            ps = Parser(tokenize(src[fm.end():end - 1]), "Json::Private::" + fname)
+            body = []
+            while ps.peek()[0] != "eof":
+                body.append(ps.stmt())
+            pfunctions[fname] = ([(fm.group(1), True)], body)
+
+    def ret_parse(v, env, sn):
+        if v[0] != "cbool":
+            raise Refuse("parseValue: return value that is not true/false")
+        if not v[1]:
+            if "$err" not in env:
+                raise Refuse("parseValue: `return false` without an error")
+            _, line, p = env["$err"][0]
+            return f"Res.fail {line} {p}"
+        res = sn.lookup(env, sn.result_name)[0]
+        conts = [x[0] for n, x in env.items() if x[0][0] in ("vlist", "vmap") and x[0][2] == sn.result_name]
+        if res[0] == "jval" and not conts:
+            val = res[1]
+        elif res[0] == "jout" and len(conts) == 1:
+            val = f"(Val.{'list' if conts[0][0] == 'vlist' else 'map'} {conts[0][1]})"
+        else:
+            raise Refuse("parseValue: `return true` without a value in the out-parameter")
+        return f"Res.ok ({val}, {env['$st'][0][1]})"
+    sn = Snippet("pv", "Res (Val × St)", "Cxx.rdR", "Cxx.findR", [("$st", "st", "st"), (pm.group(1), "jout", "_")], None, ret_parse)
+    sn.result_name = pm.group(1)
+    sn.functions = pfunctions
+    sn.rec_name, sn.rec_lean, sn.recursive_entry = "parseValue", "parseValue", True
+    sn.always = {"$st"}
+    parts.append(sn.run(pv, "parseValue", "`Json::Private::parseValue(result)` with `parseArray` / `parseObject` executed in place: (value stored into "
+                        "`result`, parser state behind it); `readToken()` = `St.next` (the tokenizer, translated above)"))
     assumed |= sn.assumed
 
     head = ("/- GENERATED by tools/gen_json.py (tools/gen_json_cxx.py) by TRANSLATING statements of src/Document/Json.cpp of the\n"
